@@ -65,6 +65,22 @@ theorem validateSpec_denotes (st : Sspor) (a : UpdArgs) :
         · simp [LTree.validateSpec, LTree.eval, LTree.actSem, LTree.condSem, LTree.excSem, Sspor.validateN, hbm, hn, hd, hk]
         · simp [LTree.validateSpec, LTree.eval, LTree.actSem, LTree.condSem, LTree.excSem, Sspor.validateN, hbm, hn, hd, hk]
 
+/-- the specification tree of `set_number_of_sensors` evaluates to the machine's `setN` -/
+theorem setNSpec_denotes (st : Sspor) (a : UpdArgs) :
+    LTree.setNSpec.eval st a = some (st.setN a.v) := by
+  obtain ⟨v, x, o⟩ := a
+  cases hr : st.ranking with
+  | none => simp [LTree.setNSpec, LTree.eval, LTree.actSem, Sspor.setN, hr]
+  | some r =>
+    cases v with
+    | other => simp [LTree.setNSpec, LTree.eval, LTree.actSem, LTree.condSem, LTree.excSem, Sspor.setN, hr]
+    | int z =>
+      by_cases hz : z ≤ 0
+      · simp [LTree.setNSpec, LTree.eval, LTree.actSem, LTree.condSem, LTree.excSem, Sspor.setN, hr, hz]
+      · by_cases hl : z > (r.length : Int)
+        · simp [LTree.setNSpec, LTree.eval, LTree.actSem, LTree.condSem, LTree.excSem, Sspor.setN, hr, hz, hl]
+        · simp [LTree.setNSpec, LTree.eval, LTree.actSem, LTree.condSem, LTree.excSem, Sspor.setN, hr, hz, hl]
+
 /-- … and `Sspor.fit` IS: basis step, matrix representation, that validation, then the ranking -/
 theorem Sspor.fit_eq_validate (st : Sspor) (ne nf : Nat) (pf : Bool) (o : List Nat) :
     st.fit ne nf pf o =
